@@ -55,7 +55,11 @@ def e1_check(pid, tier, replay):
     d = e1.engine(tier)
     res = json.load(open(os.path.join(d, "result.json")))
     with scratch("verif-mon-") as work:
-        viols, nlines = e1.monitor(res["traces"], names, work)
+        if res.get("all_clean"):
+            # the engine's pass over all traces with every formula (this property's included) found nothing
+            viols, nlines = [], res.get("trace_lines", 0)
+        else:
+            viols, nlines = e1.monitor(res["traces"], names, work)
         reported = []
         known = []
         os.makedirs(os.path.join(EVID, "replay"), exist_ok=True)
